@@ -27,6 +27,9 @@ Driver for C06.  Op lines (integer tokens):
                                                           -> alloc 0 | alloc 1 <nc> cpu… <ncell> (cell amt)…  (Allocate)
   commit                                                  -> ledger dump   (Update with the model's own last allocation)
   navailx                                                 -> navail (cell available)…   (with cpu amplification)
+  commitq                                                 (as commit, no output: the ledger cannot be read while other
+                                                           goroutines run)
+  dump                                                    -> ledger dump
 ledger dump = `pods u…` / `cpus (c ref excl)…` / `res (cell amt)…` (non-zero) / `avail c…`,
 every list sorted by key.  All amounts in milli-units.
 -/
@@ -214,6 +217,14 @@ def runLine (c : Ctx) (line : String) : Ctx × List String :=
         match xs, c.last with
         | [], some p => let c' := { c with L := step c.L (.upd p), last := none }; (c', dump c')
         | _, _ => (c, ["bad-op"])
+      | "commitq" =>
+        match xs, c.last with
+        | [], some p => ({ c with L := step c.L (.upd p), last := none }, [])
+        | _, _ => (c, ["bad-op"])
+      | "dump" =>
+        match xs with
+        | [] => (c, dump c)
+        | _ => (c, ["bad-op"])
       | "navailx" =>
         match xs with
         | [] => (c, ["navail" ++ showCells (c.cfg.capacity.map fun (k, cap) =>
